@@ -524,16 +524,21 @@ func analyzeModule(work string, m modSpec, rnd *hx.Rand) {
 				} else {
 					fr.OneFile = false
 				}
-				// shuffle the order in which the model gets the edits
-				for i := len(fr.Edits) - 1; i > 0; i-- {
-					j := rnd.Intn(i + 1)
-					fr.Edits[i], fr.Edits[j] = fr.Edits[j], fr.Edits[i]
-				}
 				if fr.File >= 0 && fr.OneFile {
 					fr.Exempt = pkgLineDir
 					src := fileBytes(fr.File)
 					patched, ok, same := applyEdits(src, hes)
 					fr.Applied, fr.SameInsert = ok, same
+					if !same {
+						// the model gets the edits in a shuffled order (apply_perm_invariant); several insertions at
+						// one offset are order-sensitive by definition and keep the order the analyzer gave
+						for i := len(fr.Edits) - 1; i > 0; i-- {
+							j := rnd.Intn(i + 1)
+							fr.Edits[i], fr.Edits[j] = fr.Edits[j], fr.Edits[i]
+						}
+					} else {
+						stat("fixes_with_insertions_at_one_offset", 1)
+					}
 					if ok {
 						var mid []byte
 						fr.Prefix, mid, fr.Suffix = trimCommon(src, patched)
